@@ -140,24 +140,24 @@ def query_flows(
         flows = m.flows
 
     if source:
-        if "name" in source:
-            source = source.copy()
-            name = source.pop("name")
+        source = source.copy()
+        name = source.pop("name", None)
+        if name is not None:
             flows = [f for f in flows if f.source and f.source.name == name]
-        else:
-            source = frozenset(source.items())
-            # A missing end (entry flow) never excludes a flow, as in BaseFlow.is_match
-            flows = [f for f in flows if (not f.source) or f.source._has_strata(source)]
+        # The remaining keys are a strata filter (also when a name was given)
+        source = frozenset(source.items())
+        # A missing end (entry flow) never excludes a flow, as in BaseFlow.is_match
+        flows = [f for f in flows if (not f.source) or f.source._has_strata(source)]
 
     if dest:
-        if "name" in dest:
-            dest = dest.copy()
-            name = dest.pop("name")
+        dest = dest.copy()
+        name = dest.pop("name", None)
+        if name is not None:
             flows = [f for f in flows if f.dest and f.dest.name == name]
-        else:
-            dest = frozenset(dest.items())
-            # A missing end (exit flow) never excludes a flow, as in BaseFlow.is_match
-            flows = [f for f in flows if (not f.dest) or f.dest._has_strata(dest)]
+        # The remaining keys are a strata filter (also when a name was given)
+        dest = frozenset(dest.items())
+        # A missing end (exit flow) never excludes a flow, as in BaseFlow.is_match
+        flows = [f for f in flows if (not f.dest) or f.dest._has_strata(dest)]
 
     if tags:
         if isinstance(tags, str):
